@@ -267,7 +267,14 @@ func (cln *Client) Ping(onComplete OnCompleteFunc) error {
 // terminates after the sending of the DISCONNECT message.
 func (cln *Client) Disconnect() {
 	msg := message.NewDisconnectMessage()
-	writeMessage(cln.svc.conn, msg)
+	// The DISCONNECT goes through the outgoing buffer like every other packet:
+	// written to the connection directly it could land in the middle of a
+	// packet the sender is just writing, and ahead of packets still queued.
+	if _, err := cln.svc.writeMessage(msg); err == nil {
+		// Wait until the sender has written everything (room for a whole
+		// buffer means the buffer is empty) or the buffer has been closed.
+		cln.svc.out.WriteWait(int(cln.svc.out.size))
+	}
 	cln.svc.stop()
 }
 
